@@ -47,6 +47,7 @@ import itertools
 import re
 import traceback
 
+from .. import dyn
 from ..par import Result, deadline_passed
 from ..width import cw, sw
 
@@ -240,11 +241,11 @@ def build_table(desc):
         elif k == "end_section":
             pass
         else:
-            kw[k] = v
+            kw[k] = dyn(v)
     table = Table(**kw)
     for i, co in enumerate(desc["c"]):
-        ckw = {k: v for k, v in co.items() if k != "header"}
-        ckw.setdefault("overflow", desc.get("base_overflow", "ellipsis"))
+        ckw = {k: dyn(v) for k, v in co.items() if k != "header"}
+        ckw.setdefault("overflow", dyn(desc.get("base_overflow", "ellipsis")))
         if ckw.get("ratio") is not None and table.width is None:
             table.expand = True       # a ratio is documented to require expand or width
         table.add_column(_copt(desc, i, "header"), footer=FOOTER, **ckw)
